@@ -15,8 +15,8 @@ var Registry = map[string]func(*explore.Run){
 	"C14": C14,
 }
 
-// Replay re-evaluates the witness stored in a replay file with the property's
-// single-input oracle (no explorer) and reports whether it still fails.
+// Replay re-runs exactly the recorded case (space + choice sequence) of a replay file,
+// without the explorer, and reports whether the recorded signature is still produced.
 func Replay(prop, path string) int {
 	b, err := os.ReadFile(path)
 	if err != nil {
@@ -24,28 +24,26 @@ func Replay(prop, path string) int {
 		return 2
 	}
 	var rp struct {
-		Property, Signature, Witness, Detail string
+		Property, Signature, Witness, Detail, Space, Tier string
+		Choices                                          []int
 	}
 	if err := json.Unmarshal(b, &rp); err != nil {
 		fmt.Fprintln(os.Stderr, err)
 		return 2
 	}
-	f, ok := Single[prop]
-	if !ok {
-		fmt.Fprintf(os.Stderr, "no single-input replay for %s\n", prop)
+	if rp.Space == "direct" || rp.Space == "" {
+		fmt.Printf("replay: this violation was found outside the explorer (%s); re-run the check itself\n", rp.Signature)
 		return 2
 	}
-	viol := f(rp.Witness)
-	for sig, d := range viol {
-		fmt.Printf("replay: %s\n  %s\n", sig, d)
+	tier := rp.Tier
+	if tier == "" {
+		tier = "quick"
 	}
-	if _, ok := viol[rp.Signature]; ok {
-		fmt.Printf("VIOLATION property=%s replay=%s\n", prop, path)
-		return 1
-	}
-	fmt.Printf("replay: signature %q not reproduced\n", rp.Signature)
-	return 0
+	r := explore.NewRun(prop, tier)
+	r.ReplaySpace, r.ReplayChoices, r.ReplaySig = rp.Space, rp.Choices, rp.Signature
+	Registry[prop](r)
+	return r.FinishReplay(path)
 }
 
-// Single holds single-input oracles used by Replay: witness -> signature -> detail.
+// Single holds single-input oracles (witness -> signature -> detail), kept for ad-hoc use.
 var Single = map[string]func(witness string) map[string]string{}
